@@ -123,6 +123,11 @@ func (c *canonizer) node(n ast.Node) {
 			c.b.WriteString("bin" + x.Op.String() + " (")
 			return true
 		case *ast.SwitchStmt:
+			// a tagless switch is an if / else-if chain
+			if chain := switchAsIfChain(x); chain != nil {
+				c.node(chain)
+				return false
+			}
 			// clauses over distinct constants (no fallthrough) in a canonical order
 			if cl := orderedClauses(c.p, x.Body, x.Tag != nil); cl != nil {
 				c.b.WriteString("SwitchStmt (")
@@ -151,6 +156,23 @@ func (c *canonizer) node(n ast.Node) {
 							Body: x.Body,
 						})
 						return false
+					}
+				}
+			}
+			// `for i := range s` over a slice the body does not reassign is
+			// `for i := 0; i < len(s); i++`
+			if x.Value == nil && x.Key != nil && x.Tok == token.DEFINE {
+				if key, ok := x.Key.(*ast.Ident); ok && key.Name != "_" {
+					if t := c.p.TypesInfo.TypeOf(x.X); t != nil {
+						if _, isSlice := t.Underlying().(*types.Slice); isSlice && !assignsTo(x.Body, x.X) {
+							c.node(&ast.ForStmt{
+								Init: &ast.AssignStmt{Lhs: []ast.Expr{key}, Tok: token.DEFINE, Rhs: []ast.Expr{&ast.BasicLit{Kind: token.INT, Value: "0"}}},
+								Cond: &ast.BinaryExpr{X: key, Op: token.LSS, Y: &ast.CallExpr{Fun: &ast.Ident{Name: "len"}, Args: []ast.Expr{x.X}}},
+								Post: &ast.IncDecStmt{X: key, Tok: token.INC},
+								Body: x.Body,
+							})
+							return false
+						}
 					}
 				}
 			}
@@ -401,4 +423,93 @@ func (c *canonizer) madeLen(e ast.Expr) ast.Expr {
 		return nil
 	}
 	return n
+}
+
+// switchAsIfChain: a tagless switch without fallthrough, without an init
+// statement and without a break that leaves it, as the if / else-if chain it
+// is (default last). nil when it cannot be read that way.
+func switchAsIfChain(x *ast.SwitchStmt) *ast.IfStmt {
+	if x.Tag != nil || x.Init != nil || len(x.Body.List) == 0 {
+		return nil
+	}
+	var def *ast.CaseClause
+	var cases []*ast.CaseClause
+	for _, s := range x.Body.List {
+		cc := s.(*ast.CaseClause)
+		if cc.List == nil {
+			def = cc
+		} else {
+			cases = append(cases, cc)
+		}
+		// fallthrough, or a break that would leave the switch
+		bad := false
+		var walk func(n ast.Node, inner bool)
+		walk = func(n ast.Node, inner bool) {
+			ast.Inspect(n, func(m ast.Node) bool {
+				switch y := m.(type) {
+				case *ast.BranchStmt:
+					if y.Tok == token.FALLTHROUGH || (y.Tok == token.BREAK && y.Label == nil && !inner) {
+						bad = true
+					}
+				case *ast.ForStmt, *ast.RangeStmt, *ast.SwitchStmt, *ast.TypeSwitchStmt, *ast.SelectStmt:
+					if m != n {
+						walk(m, true)
+						return false
+					}
+				case *ast.FuncLit:
+					return false
+				}
+				return !bad
+			})
+		}
+		for _, b := range cc.Body {
+			walk(b, false)
+		}
+		if bad {
+			return nil
+		}
+	}
+	if len(cases) == 0 {
+		return nil
+	}
+	var root, cur *ast.IfStmt
+	for _, cc := range cases {
+		cond := cc.List[0]
+		for _, e := range cc.List[1:] {
+			cond = &ast.BinaryExpr{X: cond, Op: token.LOR, Y: e}
+		}
+		is := &ast.IfStmt{Cond: cond, Body: &ast.BlockStmt{List: cc.Body}}
+		if root == nil {
+			root = is
+		} else {
+			cur.Else = is
+		}
+		cur = is
+	}
+	if def != nil && len(def.Body) > 0 {
+		cur.Else = &ast.BlockStmt{List: def.Body}
+	}
+	return root
+}
+
+// assignsTo: the node assigns to the expression (by its source form) or takes its address.
+func assignsTo(n ast.Node, e ast.Expr) bool {
+	target := types.ExprString(e)
+	found := false
+	ast.Inspect(n, func(m ast.Node) bool {
+		switch y := m.(type) {
+		case *ast.AssignStmt:
+			for _, l := range y.Lhs {
+				if types.ExprString(l) == target {
+					found = true
+				}
+			}
+		case *ast.UnaryExpr:
+			if y.Op == token.AND && types.ExprString(y.X) == target {
+				found = true
+			}
+		}
+		return !found
+	})
+	return found
 }
